@@ -27,116 +27,9 @@ def check(ctx):
     ctx.rule("R18.3", "copies are deep (vertices, layer, film, holes, terminals, probe points)", 2)
     ctx.rule("R18.4", "stored vertices are written only by the points setter, whose chain is Polygon -> orient -> validity -> close_curve", 3)
     ctx.rule("R18.5", "device membership == film and not (any hole), radius passed with opposite signs", 1)
-    ops = {"__add__": "union", "__sub__": "difference", "__mul__": "intersection"}
-    for d, m in ops.items():
-        f = P.methods.get(d)
-        rets = [norm(n.value) for n in own_nodes(f.node) if isinstance(n, ast.Return)] if f else []
-        ctx.ob("R18.1", f"Polygon.{d} -> self.{m}(other)", rets == [f"self.{m}(other)"], detail=rets, where=f"{P.fq}.{d}",
-               construct=d, loc=loc(f, f.node) if f else "", message=f"{d} returns {rets}",
-               consequence=f"`a {'+-*'[list(ops).index(d)]} b` computes a different set operation than documented")
-    for m in ("union", "intersection", "difference"):
-        f = P.methods[m]
-        dele = _delegation(P, f, m)
-        if dele is not None:
-            ok_d, det_d = dele
-            ctx.ob("R18.1", f"Polygon.{m}: delegates to a loop helper that applies '{m}' to every operand in order, keeping name/mesh", ok_d,
-                   detail=det_d, where=f.fq, construct=m, loc=loc(f, f.node), message=f"Polygon.{m} delegates as {det_d}",
-                   consequence=f"{m} of several polygons applies another operation to the later operands or loses the name")
-        else:
-            jv = [n for n in ast.walk(f.node) if isinstance(n, ast.Call) and norm(n.func) == "self._join_via"]
-            ok = len(jv) == 1 and len(jv[0].args) == 2 and isinstance(jv[0].args[1], ast.Constant) and jv[0].args[1].value == m
-            rec = [n for n in ast.walk(f.node) if isinstance(n, ast.Call) and isinstance(n.func, ast.Attribute) and n.func.attr == m
-                   and isinstance(n.func.value, ast.Call)]
-            ok = ok and len(rec) == 1
-            pc = [n for n in ast.walk(f.node) if isinstance(n, ast.Call) and norm(n.func) == "Polygon"]
-            kw = {k.arg: norm(k.value) for k in pc[0].keywords} if pc else {}
-            ok = ok and kw.get("name") == "name or self.name" and kw.get("mesh") == "self.mesh"
-            empty = [n for n in own_nodes(f.node) if isinstance(n, ast.If) and norm(n.test) == "not others"
-                     and [norm(x.value) for x in n.body if isinstance(x, ast.Return)] == ["self.copy()"]]
-            ctx.ob("R18.1", f"Polygon.{m}: _join_via(first, '{m}'), recursion on .{m}(*rest), keeps name/mesh, no operands -> copy",
-                   ok and len(empty) == 1, detail={"join": [norm(j) for j in jv], "kwargs": kw}, where=f.fq, construct=m, loc=loc(f, f.node),
-                   message=f"Polygon.{m} dispatches {[norm(j) for j in jv]} with {kw}",
-                   consequence=f"{m} of several polygons applies another operation to the later operands or loses the name")
-        fc = P.methods[f"from_{m}"]
-        rets = [norm(n.value) for n in own_nodes(fc.node) if isinstance(n, ast.Return)]
-        # structure (local names free): f, *r = items ; p = cls(..., points=f, ...) ; return p.<m>(*r)
-        okc = False
-        rv = [n.value for n in own_nodes(fc.node) if isinstance(n, ast.Return)]
-        # canonical reading (single-use temporaries inlined): return cls(name=name, points=f, mesh=mesh).<m>(*r) with f, *r = items
-        if len(rv) == 1 and isinstance(rv[0], ast.Call) and isinstance(rv[0].func, ast.Attribute) and rv[0].func.attr == m \
-                and isinstance(rv[0].func.value, ast.Call) and norm(rv[0].func.value.func) == "cls" and len(rv[0].args) == 1 \
-                and isinstance(rv[0].args[0], ast.Starred) and isinstance(rv[0].args[0].value, ast.Name) and not rv[0].keywords:
-            rn = rv[0].args[0].value.id
-            un = [n for n in own_nodes(fc.node) if isinstance(n, ast.Assign) and isinstance(n.targets[0], ast.Tuple) and len(n.targets[0].elts) == 2
-                  and isinstance(n.targets[0].elts[1], ast.Starred) and norm(n.targets[0].elts[1].value) == rn and norm(n.value) == "items"]
-            if len(un) == 1:
-                kwp = {k.arg: norm(k.value) for k in rv[0].func.value.keywords}
-                okc = kwp.get("points") == norm(un[0].targets[0].elts[0]) and kwp.get("name") == "name" and kwp.get("mesh") == "mesh"
-        elif len(rv) == 1 and isinstance(rv[0], ast.Call) and isinstance(rv[0].func, ast.Attribute) and rv[0].func.attr == m \
-                and isinstance(rv[0].func.value, ast.Name) and len(rv[0].args) == 1 and isinstance(rv[0].args[0], ast.Starred) \
-                and isinstance(rv[0].args[0].value, ast.Name) and not rv[0].keywords:
-            pn, rn = rv[0].func.value.id, rv[0].args[0].value.id
-            asg_ = assignments(fc.node)
-            pdef = [v for _, v in asg_.get(pn, []) if v is not None]
-            un = [n for n in own_nodes(fc.node) if isinstance(n, ast.Assign) and isinstance(n.targets[0], ast.Tuple) and len(n.targets[0].elts) == 2
-                  and isinstance(n.targets[0].elts[1], ast.Starred) and norm(n.targets[0].elts[1].value) == rn and norm(n.value) == "items"]
-            if len(pdef) == 1 and isinstance(pdef[0], ast.Call) and norm(pdef[0].func) == "cls" and len(un) == 1:
-                kwp = {k.arg: norm(k.value) for k in pdef[0].keywords}
-                okc = kwp.get("points") == norm(un[0].targets[0].elts[0]) and kwp.get("name") == "name" and kwp.get("mesh") == "mesh"
-        ctx.ob("R18.1", f"Polygon.from_{m} -> polygon.{m}(*rest)", okc, detail=rets, where=fc.fq,
-               construct=f"from_{m}", loc=loc(fc, fc.node), message=f"from_{m} returns {rets}", consequence="constructor applies another operation")
-    fj = P.methods["_join_via"]
-    # the operation whitelist: the tuple of strings tested with `operation not in <name>`
-    tests = [n for n in own_nodes(fj.node) if isinstance(n, ast.Compare) and isinstance(n.ops[0], ast.NotIn) and norm(n.left) == "operation"]
-    names = None
-    if len(tests) == 1:
-        wl = expanded_text(fj.node, tests[0].comparators[0])
-        try:
-            names = sorted(ast.literal_eval(wl))
-        except Exception:
-            names = None
-    disp = [n for n in ast.walk(fj.node) if isinstance(n, ast.Call) and isinstance(n.func, ast.Call) and norm(n.func.func) == "getattr"]
-    ok = names == ["difference", "intersection", "union"] and len(disp) == 1 and norm(disp[0].func) == "getattr(self.polygon, operation)" \
-        and len(disp[0].args) == 1 and isinstance(disp[0].args[0], ast.Name)
-    if ok:
-        other = disp[0].args[0].id
-        defs = [norm(v) for _, v in assignments(fj.node).get(other, []) if v is not None]
-        ok = sorted(defs) == sorted(["other.polygon", "geo.polygon.Polygon(other)"])
-    ctx.ob("R18.1", "_join_via: operation in {union, intersection, difference}, dispatched on self.polygon with the other polygon", ok,
-           detail={"valid": names, "dispatch": [norm(d) for d in disp]}, where=fj.fq, construct="_join_via dispatch", loc=loc(fj, fj.node),
-           message=f"_join_via dispatch {[norm(d) for d in disp]} over {names}", consequence="operands are swapped (difference is not symmetric) or the wrong shapely method runs")
+    set_operations(ctx, P)
 
-    # R18.2
-    for cls, m in ((P, "rotate"), (P, "translate"), (P, "scale"), (D, "translate")):
-        f = cls.methods[m]
-        fn = f.node
-        alias = [n for n in own_nodes(fn) if isinstance(n, ast.Assign) and isinstance(n.value, ast.IfExp)
-                 and norm(n.value.test) == "inplace" and norm(n.value.body) == "self"]
-        if cls is D:
-            # if inplace: device = self else: device = self.copy(with_mesh=False)
-            al = [n for n in own_nodes(fn) if isinstance(n, ast.If) and norm(n.test) == "inplace"]
-            # <alias> = self / <alias> = self.copy(...) in the two branches, whatever the alias is called
-            t1 = [x.targets[0].id for x in (al[0].body if al else []) if isinstance(x, ast.Assign) and isinstance(x.targets[0], ast.Name)
-                  and norm(x.value) == "self"]
-            t2 = [x.targets[0].id for x in (al[0].orelse if al else []) if isinstance(x, ast.Assign) and isinstance(x.targets[0], ast.Name)
-                  and norm(x.value).startswith("self.copy(")]
-            ok_alias = len(al) == 1 and len(t1) == 1 and t1 == t2
-            name = t1[0] if t1 else "?"
-        else:
-            ok_alias = len(alias) == 1 and norm(alias[0].value.orelse) == "self.copy()"
-            name = norm(alias[0].targets[0]) if alias else "?"
-        self_stores = [f"L{n.lineno}: {norm(n)}" for n in own_nodes(fn) if isinstance(n, ast.Attribute) and isinstance(n.ctx, ast.Store)
-                       and norm(n.value) == "self"]
-        self_stores += [f"L{n.lineno}: {norm(n)[:50]}" for n in own_nodes(fn) if isinstance(n, ast.AugAssign) and norm(n.target).startswith("self.")]
-        rets = [norm(n.value) for n in own_nodes(fn) if isinstance(n, ast.Return)]
-        ok = ok_alias and not self_stores and rets == [name]
-        if cls is P:
-            st = [n for n in own_nodes(fn) if isinstance(n, ast.Assign) and norm(n.targets[0]) == f"{name}.points"]
-            ok = ok and len(st) == 1 and "self.polygon" in norm(st[0].value)
-        ctx.ob("R18.2", f"{cls.name}.{m}: stores only through `{name}` (= self if inplace else a copy)", ok,
-               detail={"alias_ok": ok_alias, "stores_to_self": self_stores, "returns": rets}, where=f.fq, construct=f"{cls.name}.{m} inplace discipline",
-               loc=loc(f, fn), message=f"{cls.name}.{m} writes to self although inplace may be False: {self_stores}",
-               consequence="a non-in-place transformation mutates the original")
+    inplace_discipline(ctx, P, D)
     # R18.3
     fc = P.methods["copy"]
     pc = [n for n in ast.walk(fc.node) if isinstance(n, ast.Call) and norm(n.func) == "Polygon"]
@@ -253,39 +146,191 @@ def check(ctx):
     ctx.decline("areas under affine maps, agreement of set operations with point-wise membership, boundary conventions: computed by shapely / matplotlib")
 
 
-def _delegation(P, f, m):
-    """Second accepted shape of a set operation: `return self.<helper>(others, "<m>", ...name...)` with a helper of the form
-    `acc = self | self.copy(); for o in <others>: acc = Polygon(name=name or self.name, points=acc._join_via(o, <operation>), mesh=self.mesh); return acc`.
-    Returns None when the method is not a delegation (the recursive shape is judged instead)."""
-    rets = [n.value for n in own_nodes(f.node) if isinstance(n, ast.Return)]
-    if len(rets) != 1 or not isinstance(rets[0], ast.Call) or not isinstance(rets[0].func, ast.Attribute) \
-            or norm(rets[0].func.value) != "self" or rets[0].func.attr not in P.methods or rets[0].func.attr == "copy":
-        return None
-    call = rets[0]
-    h = P.methods[call.func.attr]
-    hp = [a.arg for a in h.node.args.args[1:]]
-    bound = {}
-    for i, a in enumerate(call.args):
-        if i < len(hp):
-            bound[hp[i]] = a
-    for k in call.keywords:
-        bound[k.arg] = k.value
-    det = {"helper": h.qual, "arguments": {k: norm(v) for k, v in bound.items()}}
-    opp = [k for k, v in bound.items() if isinstance(v, ast.Constant) and v.value == m]
-    seqp = [k for k, v in bound.items() if norm(v) == "others"]
-    loops = [n for n in own_nodes(h.node) if isinstance(n, ast.For)]
-    if len(opp) != 1 or len(seqp) != 1 or len(loops) != 1 or norm(loops[0].iter) != seqp[0] or not isinstance(loops[0].target, ast.Name):
-        return False, det
-    lp = loops[0]
-    body = [s_ for s_ in lp.body if not isinstance(s_, ast.Expr)]
-    if len(body) != 1 or not isinstance(body[0], ast.Assign) or not isinstance(body[0].targets[0], ast.Name) or not isinstance(body[0].value, ast.Call):
-        return False, det
-    acc = body[0].targets[0].id
-    c = body[0].value
-    kw = {k.arg: norm(k.value) for k in c.keywords}
-    det["loop_body"] = norm(body[0])[:160]
-    ok = norm(c.func) == "Polygon" and kw.get("points") == f"{acc}._join_via({lp.target.id}, {opp[0]})" and kw.get("mesh") == "self.mesh" \
-        and kw.get("name") in ("name or self.name",) and bound.get("name") is not None and norm(bound["name"]) == "name"
-    hr = [norm(n.value) for n in own_nodes(h.node) if isinstance(n, ast.Return)]
-    ok = ok and hr and all(r == acc for r in hr)
-    return bool(ok), det
+def set_operations(ctx, P):
+    """R18.1 by following the statements of each method (pvs/smallstep.py) with symbolic operands: what is *called on what with
+    which operands* is compared with the documented dispatch, whatever way the method is written (if-chain, getattr, a shared
+    private constructor, a loop helper)."""
+    from ..smallstep import Machine, Opaque as SO, render, module_constants
+
+    def follow(f, env, attrs=None, call=None, undecided=None):
+        params = [a.arg for a in f.node.args.args + f.node.args.kwonlyargs]
+        e = dict(module_constants(f.module.tree))
+        e.update({p_: SO(p_) for p_ in params})
+        e.update(env)
+        m = Machine(e, attrs or (lambda t: NotImplemented), call or (lambda *a: NotImplemented), fuel=16, undecided=undecided)
+        kind, val = m.run_function(f.node)
+        return kind, val, m
+
+    def is_call(v, suffix):
+        return isinstance(v, SO) and v.parts is not None and v.parts[0] == "call" and (v.parts[1] == suffix or v.parts[1].endswith("." + suffix))
+
+    ops = {"__add__": "union", "__sub__": "difference", "__mul__": "intersection"}
+    for d, m_ in ops.items():
+        f = P.methods.get(d)
+        ok, got = False, None
+        if f is not None:
+            kind, val, _ = follow(f, {})
+            got = render(val) if kind == "return" else f"raises {val}"
+            ok = kind == "return" and is_call(val, m_) and val.parts[4] == SO("self") and val.parts[2] == [SO("other")] and not val.parts[3]
+        ctx.ob("R18.1", f"Polygon.{d} -> self.{m_}(other)", ok, detail=got, where=f"{P.fq}.{d}",
+               construct=d, loc=loc(f, f.node) if f else "", message=f"{d} returns {got}",
+               consequence=f"`a {'+-*'[list(ops).index(d)]} b` computes a different set operation than documented")
+    for m_ in ("union", "intersection", "difference"):
+        f = P.methods[m_]
+        va = f.node.args.vararg.arg if f.node.args.vararg else None
+        if va is None:
+            raise AnalysisError(f"Polygon.{m_} no longer takes *others")
+        # no operands: a copy of the receiver
+        kind0, val0, _ = follow(f, {va: (), "name": None})
+        ok0 = kind0 == "return" and is_call(val0, "copy") and val0.parts[4] == SO("self")
+        # two operands o0, o1: the fold  R_k = Polygon(name=name or self.name, points=R_{k-1}._join_via(o_k, m), mesh=self.mesh)
+        # starting from the receiver (or a copy of it), written as a loop or as one step followed by .<m>(*rest, name=name)
+        kind2, val2, _ = follow(f, {va: (SO("o0"), SO("o1")), "name": SO("name")}, undecided=lambda t: True if t.strip() in ("name", "name or self.name") else None)
+        det = {"no_operands": render(val0) if kind0 == "return" else f"raises {val0}", "two_operands": render(val2) if kind2 == "return" else f"raises {val2}"}
+
+        def fold(v, operands):
+            if not operands:
+                return v == SO("self") or (is_call(v, "copy") and v.parts[4] == SO("self") and not v.parts[2])
+            if not (is_call(v, "Polygon") or is_call(v, "type(self)") or is_call(v, "self.__class__")) or v.parts[2]:
+                return False
+            kw = v.parts[3]
+            pts = kw.get("points")
+            return is_call(pts, "_join_via") and pts.parts[2] == [operands[-1], m_] and not pts.parts[3] \
+                and render(kw.get("mesh")) == "self.mesh" and render(kw.get("name")) in ("name", "(name or self.name)") \
+                and set(kw) == {"points", "mesh", "name"} and fold(pts.parts[4], operands[:-1])
+        o = [SO("o0"), SO("o1")]
+        ok2 = kind2 == "return" and (fold(val2, o) or (is_call(val2, m_) and val2.parts[2] == o[1:] and val2.parts[3].get("name") == SO("name")
+                                                       and set(val2.parts[3]) == {"name"} and fold(val2.parts[4], o[:1])))
+        ctx.ob("R18.1", f"Polygon.{m_}: _join_via(first, '{m_}'), recursion on .{m_}(*rest), keeps name/mesh, no operands -> copy",
+               ok0 and ok2, detail=det, where=f.fq, construct=m_, loc=loc(f, f.node),
+               message=f"Polygon.{m_} evaluates to {det}",
+               consequence=f"{m_} of several polygons applies another operation to the later operands or loses the name")
+    for m_ in ("union", "intersection", "difference"):
+        fc = P.methods[f"from_{m_}"]
+        kind, val, _ = follow(fc, {"items": [SO("p0"), SO("p1"), SO("p2")], "cls": SO("cls")})
+        got = render(val) if kind == "return" else f"raises {val}"
+        okc = False
+        if kind == "return" and is_call(val, m_) and val.parts[2] == [SO("p1"), SO("p2")] and not val.parts[3]:
+            recv = val.parts[4]
+            if is_call(recv, "cls") and not recv.parts[2]:
+                kw = recv.parts[3]
+                okc = kw.get("points") == SO("p0") and kw.get("name") == SO("name") and kw.get("mesh") == SO("mesh") and set(kw) == {"points", "name", "mesh"}
+        ctx.ob("R18.1", f"Polygon.from_{m_} -> polygon.{m_}(*rest)", okc, detail=got, where=fc.fq,
+               construct=f"from_{m_}", loc=loc(fc, fc.node), message=f"from_{m_} returns {got}", consequence="constructor applies another operation")
+    # _join_via: for each valid operation and each kind of operand the shapely method of that name runs on self.polygon with the
+    # other polygon; an unknown operation raises
+    fj = P.methods["_join_via"]
+    bad, table = [], {}
+    for operation in ("union", "intersection", "difference", "symmetric_difference", "bogus"):
+        for other_kind in ("Polygon", "raw"):
+            calls = []
+
+            def call(mach, node, name, args, kwargs, other_kind=other_kind, calls=calls):
+                if name == "isinstance" and len(args) == 2:
+                    o, c = args
+                    if o == SO("other"):
+                        return (c == SO("Polygon")) == (other_kind == "Polygon") if c == SO("Polygon") else (other_kind == "raw")
+                    return True           # results of shapely calls are polygons in this scenario
+                if name.startswith("self.polygon."):
+                    calls.append((name, list(args), dict(kwargs)))
+                return NotImplemented
+
+            def undecided(text):
+                # validity of the joined polygon: this scenario is the valid, non-empty one
+                if text.endswith(".is_empty"):
+                    return False
+                if text.endswith(".is_valid"):
+                    return True
+                return None
+            kind, val, mach = follow(fj, {"operation": operation}, call=call, undecided=undecided)
+            key = f"{operation}/{other_kind}"
+            if operation in ("union", "intersection", "difference"):
+                want_other = "other.polygon" if other_kind == "Polygon" else "geo.polygon.Polygon(other)"
+                got = [(n, [render(a) for a in args]) for n, args, kw in calls]
+                table[key] = got if kind == "return" else f"raises {val}"
+                if kind != "return" or got != [(f"self.polygon.{operation}", [want_other])] or not is_call(val, operation):
+                    bad.append(f"{key}: {table[key]}")
+            else:
+                table[key] = "raises" if kind == "raise" else f"returns {render(val)}"
+                if kind != "raise" or calls:
+                    bad.append(f"{key}: {table[key]}")
+    ctx.ob("R18.1", "_join_via: operation in {union, intersection, difference}, dispatched on self.polygon with the other polygon", not bad,
+           detail=table, where=fj.fq, construct="_join_via dispatch", loc=loc(fj, fj.node),
+           message=f"_join_via dispatch: {bad[:2]}", consequence="operands are swapped (difference is not symmetric) or the wrong shapely method runs")
+
+
+def inplace_discipline(ctx, P, D):
+    """R18.2 by following each transformation with inplace = True and inplace = False (pvs/smallstep.py): which object receives
+    the stores and the in-place calls, and which object is returned.  Independent of how the target is selected (conditional
+    expression, if/else, `target = self` followed by `if not inplace`, a shared private helper)."""
+    from ..smallstep import Machine, Opaque as SO, render, module_constants
+
+    def root_of(o):
+        while isinstance(o, SO) and o.parts and o.parts[0] in ("attr", "index"):
+            o = o.parts[1]
+        return o
+
+    for cls, m_ in ((P, "rotate"), (P, "translate"), (P, "scale"), (D, "translate")):
+        f = cls.methods[m_]
+        params = [a.arg for a in f.node.args.args + f.node.args.kwonlyargs]
+        if "inplace" not in params:
+            raise AnalysisError(f"{cls.name}.{m_} no longer has an `inplace` parameter")
+        problems, seen = [], {}
+        for inplace in (True, False):
+            touched = []            # (root object, what) for every store / in-place call
+
+            def attrs(text):
+                if text.endswith(".polygons"):
+                    base = SO(text[:-len(".polygons")])
+                    return [SO(f"{text}[0]", ("index", SO(text, ("attr", _owner[0](text), "polygons")), 0))]
+                return NotImplemented
+            _owner = [None]
+
+            def call(mach, node, name, args, kwargs):
+                recv = mach.callee(node.func)[1]
+                if kwargs.get("inplace") is True and isinstance(recv, SO):
+                    touched.append((root_of(recv), f"{name}(..., inplace=True)"))
+                if name.split(".")[-1].startswith("_create_") and isinstance(recv, SO):
+                    touched.append((root_of(recv), f"{name}(...)"))
+                return NotImplemented
+            env = dict(module_constants(f.module.tree))
+            env.update({p_: SO(p_) for p_ in params})
+            env["inplace"] = inplace
+            mach = Machine(env, attrs, call, fuel=16, undecided=lambda t: True)
+            # `<obj>.polygons` belongs to whatever <obj> evaluates to: resolve the owner through the machine's environment
+            def owner(text, mach=mach):
+                head = text[:-len(".polygons")]
+                v = mach.env.get(head)
+                return v if isinstance(v, SO) else SO(head)
+            _owner[0] = owner
+            kind, val = mach.run_function(f.node)
+            for base, attr, v in mach.attr_stores:
+                touched.append((root_of(base), f"{render(base)}.{attr} = {render(v)[:60]}"))
+            on_self = [w for r, w in touched if r == SO("self")]
+            seen[inplace] = {"returns": render(val) if kind == "return" else f"raises {val}", "touches_self": on_self,
+                             "touches": [w for _, w in touched][:6]}
+            if kind != "return":
+                problems.append(f"inplace={inplace}: raises {val}")
+                continue
+            if inplace:
+                if val != SO("self"):
+                    problems.append(f"inplace=True returns {render(val)}, not the receiver")
+                if not on_self:
+                    problems.append("inplace=True does not modify the receiver")
+            else:
+                is_copy = isinstance(val, SO) and val.parts and val.parts[0] == "call" and val.parts[1].split(".")[-1] == "copy" \
+                    and val.parts[4] == SO("self")
+                if not is_copy:
+                    problems.append(f"inplace=False returns {render(val)}, not a copy of the receiver")
+                if on_self:
+                    problems.append(f"inplace=False modifies the receiver: {on_self[:3]}")
+                if is_copy and not [1 for r, _ in touched if r == val]:
+                    problems.append("inplace=False does not transform the copy it returns")
+            if cls is P:
+                pts = [v for base, attr, v in mach.attr_stores if attr == "points"]
+                if len(pts) != 1 or "self.polygon" not in render(pts[0]):
+                    problems.append(f"inplace={inplace}: the new vertices are not computed from self.polygon ({[render(x)[:50] for x in pts]})")
+        ctx.ob("R18.2", f"{cls.name}.{m_}: stores only through the target (= self if inplace else a copy), which is returned", not problems,
+               detail=seen, where=f.fq, construct=f"{cls.name}.{m_} inplace discipline",
+               loc=loc(f, f.node), message=f"{cls.name}.{m_}: {problems[:2]}",
+               consequence="a non-in-place transformation mutates the original")
